@@ -12,6 +12,7 @@ import (
 	"encoding/json"
 	"flag"
 	"fmt"
+	"math"
 	"math/big"
 	"math/rand"
 	neturl "net/url"
@@ -58,6 +59,9 @@ type dDoc struct {
 	NErrors  int                 `json:"nerrors"`
 	Fields   map[string][]string `json:"fields"`
 	RelData  map[string][]string `json:"reldata"`
+	// Unenc: the primary resource carries a meta value no JSON can hold (an infinite number): the
+	// resource cannot be encoded.  Whatever the library makes of that, the output is well-formed.
+	Unenc bool `json:"unenc"`
 }
 
 type dRelObj struct {
@@ -334,6 +338,11 @@ func (w *docWorld) build(d dDoc) (*jsonapi.Document, *jsonapi.URL, []jsonapi.Res
 		return out
 	}
 	prim := mk(d.Primary)
+	if d.Unenc && len(prim) > 0 {
+		if mh, ok := prim[0].(jsonapi.MetaHolder); ok {
+			mh.SetMeta(jsonapi.Meta{"inf": math.Inf(1)})
+		}
+	}
 	switch d.Kind {
 	case "one":
 		doc.Data = prim[0]
@@ -1261,6 +1270,10 @@ func docMain(args []string) {
 		}
 		if rng.Intn(2) == 0 {
 			v.Shift = 0
+		}
+		if d.Kind == "one" && len(d.Included) > 0 && rng.Intn(6) == 0 {
+			d.Unenc = true
+			stt.class("primary-cannot-be-encoded")
 		}
 		if v.Busy = rng.Intn(8) == 0; v.Busy {
 			stt.class("while-others-marshal")
